@@ -506,7 +506,7 @@ def spunit(name, n=300, **params):
                 thorough=dict(explore=dict(n=10 * n), dfs=dict(max=10 * n, pb=3)))
 def manyunit(name, workers, n=40, runs=40):
     return dict(name=name, scenario="spawn_many", params=dict(workers=workers, n=n, yields=3),
-                quick=dict(explore=dict(n=runs)), thorough=dict(explore=dict(n=3 * runs)))
+                quick=dict(explore=dict(n=runs)), thorough=dict(explore=dict(n=2 * runs)))
 C01_UNITS = [
     dict(name="join_spec", tlc=[("spec/l1/Join.tla", "spec/l1/MCJoin.cfg")]),
     dict(name="sched_spec", tlc=[("spec/l1/MCSched.tla", "spec/l1/MCSched.cfg")]),
